@@ -132,4 +132,59 @@ theorem boxedDivRem_spec (n d : List Nat) :
     (n.length ≠ d.length → boxedDivRem n d = none) := by
   unfold boxedDivRem; constructor <;> intro h <;> simp [h]
 
+/-- T02.4 (digit) one complete Knuth digit on a row of `m ≥ 2` limbs: the 3-by-2 estimate from the
+    three top window limbs and the two top divisor limbs, multiply-subtract, masked add-back and the
+    decrement (`wrapping_sub(1)` of the vartime routines and `saturating_sub(1)` of the constant-time
+    one alike) give exactly `W / Y` and leave `W % Y` in the row, for every window `W < Y·B` and every
+    normalised divisor row `Y`; in particular the decrement never saturates / wraps. -/
+theorem knuth_digit_exact {rc : Reciprocal} (ok : RcOK rc) {xs ys : List Nat} {xHi m : Nat}
+    (hm : 2 ≤ m) (hxl : xs.length = m) (hyl : ys.length = m) (hx : WF xs) (hy : WF ys) (hxHi : xHi < B)
+    (hv1 : ys.getD (m - 1) 0 = rc.divisorNormalized)
+    (hW : val xs + B ^ m * xHi < val ys * B) :
+    val (knuthRow xs ys xHi (div3by2 xHi (xs.getD (m - 1) 0) (xs.getD (m - 2) 0) rc (ys.getD (m - 2) 0))).1
+      = (val xs + B ^ m * xHi) % val ys ∧
+    WF (knuthRow xs ys xHi (div3by2 xHi (xs.getD (m - 1) 0) (xs.getD (m - 2) 0) rc (ys.getD (m - 2) 0))).1 ∧
+    (knuthRow xs ys xHi (div3by2 xHi (xs.getD (m - 1) 0) (xs.getD (m - 2) 0) rc (ys.getD (m - 2) 0))).1.length = m ∧
+    selectWord (div3by2 xHi (xs.getD (m - 1) 0) (xs.getD (m - 2) 0) rc (ys.getD (m - 2) 0))
+      (wsub (div3by2 xHi (xs.getD (m - 1) 0) (xs.getD (m - 2) 0) rc (ys.getD (m - 2) 0)) 1)
+      (knuthRow xs ys xHi (div3by2 xHi (xs.getD (m - 1) 0) (xs.getD (m - 2) 0) rc (ys.getD (m - 2) 0))).2
+      = (val xs + B ^ m * xHi) / val ys ∧
+    selectWord (div3by2 xHi (xs.getD (m - 1) 0) (xs.getD (m - 2) 0) rc (ys.getD (m - 2) 0))
+      ((div3by2 xHi (xs.getD (m - 1) 0) (xs.getD (m - 2) 0) rc (ys.getD (m - 2) 0)) - 1)
+      (knuthRow xs ys xHi (div3by2 xHi (xs.getD (m - 1) 0) (xs.getD (m - 2) 0) rc (ys.getD (m - 2) 0))).2
+      = (val xs + B ^ m * xHi) / val ys :=
+  knuth_digit ok hm hxl hyl hx hy hxHi hv1 hW
+
+/-- T02.4 (loop invariant, vartime) the `loop { … }` of `div_rem_vartime` from pass `k` down to `0`
+    on the state `lo ++ win ++ Q` (`k` untouched low limbs, the `yc`-limb window with `x_hi`, the
+    digits already stored): it ends with the remainder limbs, the `k + 1` quotient digits and `Q`. -/
+theorem vtLoop_exact {rc : Reciprocal} (ok : RcOK rc) {y : List Nat} {yc : Nat}
+    (hyc : 2 ≤ yc) (hyl : y.length = yc) (hy : WF y) (hv1 : y.getD (yc - 1) 0 = rc.divisorNormalized)
+    (k : Nat) (lo win Q : List Nat) (xHi : Nat) (hlo : lo.length = k) (hwin : win.length = yc)
+    (hwlo : WF lo) (hw : WF win) (hxHi : xHi < B) (hW : val win + B ^ yc * xHi < val y * B) :
+    ∃ r ds, (vtLoop rc y yc k (lo ++ win ++ Q, xHi)).1 = r ++ ds ++ Q ∧ r.length = yc - 1 ∧
+      ds.length = k + 1 ∧ WF r ∧ WF ds ∧ (vtLoop rc y yc k (lo ++ win ++ Q, xHi)).2 < B ∧
+      val r + B ^ (yc - 1) * (vtLoop rc y yc k (lo ++ win ++ Q, xHi)).2 =
+        (val (lo ++ win) + B ^ (k + yc) * xHi) % val y ∧
+      val ds = (val (lo ++ win) + B ^ (k + yc) * xHi) / val y :=
+  vtLoop_spec ok hyc hyl hy hv1 k lo win Q xHi hlo hwin hwlo hw hxHi hW
+
+/-- T02.7 `Uint::div_rem_vartime::<RHS_LIMBS>` is exact for EVERY pair of limb counts, every
+    dividend and every non-zero divisor (limb-divisor short cut, `yc > LIMBS` short cut, Knuth loop
+    with normalisation shift incl. shift 0 and the final un-shift): quotient in the dividend's width,
+    remainder in the divisor's width.  Only H_recip is assumed. -/
+theorem divRemVartime_exact_partial (H_recip : HRecip) {n d : List Nat} (hn : WF n) (hd : WF d)
+    (hd0 : val d ≠ 0) :
+    divRemVartime n d = (toLimbs n.length (val n / val d), toLimbs d.length (val n % val d)) :=
+  divRemVartime_spec H_recip hn hd hd0
+
+/-- T02.7b the vartime thin forms (`rem_vartime`, `rem_mixed`, `wrapping_div_vartime`,
+    `wrapping_rem_vartime`, `DivVartime`) -/
+theorem vartime_forms_exact_partial (H_recip : HRecip) {n d : List Nat} (hn : WF n) (hd : WF d)
+    (hd0 : val d ≠ 0) :
+    remVartime n d = toLimbs d.length (val n % val d) ∧
+    wrappingDivVartime n d = toLimbs n.length (val n / val d) := by
+  unfold remVartime wrappingDivVartime
+  rw [divRemVartime_spec H_recip hn hd hd0]; exact ⟨rfl, rfl⟩
+
 end CB.P02
